@@ -30,6 +30,11 @@ Load engine (harness/c06_load.py, spec/SandboxReachLoad.tla): both engines above
    chunk returns) x history of loads; TLC enumerates every case with the demanded outcome, each is
    executed with a probe body that reports from the inside which forbidden names it sees, and the
    Python side reads the real global table of the runtime.
+Stack engine (harness/c06_stack.py, spec/SandboxReachStack.tla): the load engine assumes a WELL-FORMED environment
+   stack.  Fourth model: the sandbox bookkeeping as ATTACKER-CONTROLLED state - the helpers exported into every module
+   environment (_python_append_env, _lua_reset_env, _save_mod, _new_loader ...) called by page code with hostile
+   arguments before an entry point is used, also while the stack is really empty (trap firing in the environment
+   reset); the fallbacks of the loader paths ("_python_top_env() or ...") are explicit in the model.
 """
 from __future__ import annotations
 
@@ -47,6 +52,7 @@ import c06_extract
 import c06_corpus
 import c06_gate
 import c06_load
+import c06_stack
 from common import Outcome, Scratch, tlc
 
 PID = "C06"
@@ -360,16 +366,20 @@ def run(tier: str) -> int:
     gate = c06_gate.Gate(o, tier)
     # third engine: how page-supplied source comes to run (c06_load.py); its TLC runs work in the background too
     load = c06_load.Load(o, tier)
+    # fourth engine: the sandbox bookkeeping as attacker-controlled state (c06_stack.py); TLC in the background too
+    stack = c06_stack.Stack(o, tier)
     try:
         gate.start()   # forks (random histories) before any thread exists
         load.start()   # threads only
-        return _run(o, tier, gate, load)
+        stack.start()  # threads only
+        return _run(o, tier, gate, load, stack)
     finally:
         gate.close()
         load.close()
+        stack.close()
 
 
-def _run(o, tier: str, gate, load) -> int:
+def _run(o, tier: str, gate, load, stack) -> int:
     thorough = tier == "thorough"
     o.rule = (
         "V/G: one case per forbidden reference that TLC finds reachable in the live object graph "
@@ -384,7 +394,13 @@ def _run(o, tier: str, gate, load) -> int:
         "Load engine: one case per (source shape [prefix x returned value x line ends x ending], history of loads of the module "
         "[entry point x same invocation/later #invoke/later page]) enumerated by TLC from spec/SandboxReachLoad.tla, the module "
         "text written into the page store with a probe body and loaded through the real entry points; distinct by shape + "
-        "history, non-trivial = the model lets the chunk run or the source does not compile as it stands."
+        "history, non-trivial = the model lets the chunk run or the source does not compile as it stands. "
+        "Stack engine: one case per (context of the page code [top-level / nested invocation / inside the environment reset], "
+        "history of bookkeeping manipulations [_python_append_env(nil|false|number|own table), pushes popped by the dispatcher, "
+        "_lua_reset_env, _save_mod, helpers without influence] and loads [8 in-module entry points x same invocation / later "
+        "#invoke / later page]) ending in a load, enumerated by TLC from spec/SandboxReachStack.tla and performed with the real "
+        "helpers of a real module environment; distinct by context + history, non-trivial = at least one manipulation or a "
+        "context other than the top-level invocation."
     )
     o.assumptions = [
         "object-capability view: exploits of the C Lua VM / lupa memory safety are out of scope",
@@ -423,10 +439,13 @@ def _run(o, tier: str, gate, load) -> int:
 
     # ---- load engine: wait for its TLC runs and end its threads (nothing may fork while they live)
     load.collect()
+    stack.collect()
     # ---- gate engine: collect its TLC runs, run every generated history for real (before anything else forks)
     gate.finish()
     # ---- load engine: every generated (shape, history) on the real loader
     load.finish()
+    # ---- stack engine: every generated (context, history of manipulations and loads) with the real helpers
+    stack.finish()
 
     with Scratch("c06-") as d:
         # ---- V: extraction from the live sandbox
@@ -509,6 +528,9 @@ def replay(path: str) -> int:
     if case["kind"] == "load":
         print("source shape", case["shape"], "loaded through", [c06_load.fmt_step(x) for x in case["steps"]], "in a fresh context:")
         return c06_load.replay_case(case)
+    if case["kind"] == "stack":
+        print("context", case["cx"], "history", [c06_stack.fmt_step(x) for x in case["steps"]], "in a fresh context:")
+        return c06_stack.replay_case(case)
     with Scratch("c06r-") as d:
         if case["kind"] == "attack":
             a = next(a for a in c06_corpus.A if a["name"] == case["name"])
@@ -565,5 +587,6 @@ def selftest() -> int:
         luafix.close_ctx(ctx)
     ok &= c06_gate.selftest()
     ok &= c06_load.selftest()
+    ok &= c06_stack.selftest()
     print("selftest", "ok" if ok else "FAILED")
     return 0 if ok else 1
